@@ -827,6 +827,17 @@ func (rn *runner) evalBatch(b *Batch, withAlone bool, sched []int) ([]finding, *
 			add("impl-violation", "workdir/shared", fmt.Sprintf("two subtests of one RunT call were given the same name, hence the same work directory: script files %v got the names %v", bases(b), ro.res.Names), fmt.Sprint(want), fmt.Sprint(ro.res.Names))
 			return fs, ro
 		}
+		// ... and no two calls of Params.Setup were handed the same work directory
+		dirs := map[string]int{}
+		for _, d := range ro.res.SetupDirs {
+			dirs[d]++
+		}
+		for _, d := range ro.res.SetupDirs {
+			if dirs[d] > 1 {
+				add("impl-violation", "workdir/shared", fmt.Sprintf("Params.Setup was called %d times with the work directory %s: script files %v got the names %v", dirs[d], filepath.Base(d), bases(b), ro.res.Names), fmt.Sprint(want), fmt.Sprint(ro.res.SetupDirs))
+				return fs, ro
+			}
+		}
 		if fmt.Sprint(want) != fmt.Sprint(ro.res.Names) {
 			add("correspondence", "names", "RunT named the subtests differently from the harness's expectation", fmt.Sprint(want), fmt.Sprint(ro.res.Names))
 			return fs, ro
@@ -1056,7 +1067,7 @@ func (rn *runner) evalBatch(b *Batch, withAlone bool, sched []int) ([]finding, *
 func bases(b *Batch) []string {
 	var out []string
 	for i := range b.Scripts {
-		out = append(out, fmt.Sprintf("%d/%s.txt", i, b.Scripts[i].fileBase()))
+		out = append(out, fmt.Sprintf("%d/%s", i, b.Scripts[i].fileName()))
 	}
 	return out
 }
@@ -1099,14 +1110,14 @@ func (rn *runner) shrink(b *Batch, oracle string, sched []int) *Batch {
 		budget--
 		return rn.hasFinding(c, oracle, sched)
 	}
-	cur.Scripts = common.ShrinkList(cur.Scripts, func(ss []Script) bool {
+	cur.Scripts = renamedByBases(common.ShrinkList(cur.Scripts, func(ss []Script) bool {
 		if len(ss) < minScripts {
 			return false
 		}
 		c := cur
-		c.Scripts = ss
+		c.Scripts = renamedByBases(ss) // script files with equal base names: the names follow the files that are left
 		return bad(&c)
-	})
+	}))
 	for i := range cur.Scripts {
 		body := common.ShrinkList(cur.Scripts[i].Body, func(as []Action) bool {
 			c := cur
@@ -1136,7 +1147,15 @@ func (rn *runner) report(b *Batch, fs []finding, doShrink bool, sched []int) {
 		mb := b
 		rn.rmu.Lock()
 		rn.nshrunk[f.oracle]++
-		first := rn.nshrunk[f.oracle] <= 2 // at most two witnesses per oracle are minimised
+		nth := rn.nshrunk[f.oracle]
+		first := nth <= 2 // at most two witnesses per oracle are minimised
+		if nth > 3 {
+			// the result keeps three witnesses per oracle: the two that are being minimised (they arrive
+			// late) and the next one; the others are only counted
+			rn.res.Count("finding:" + f.oracle)
+			rn.rmu.Unlock()
+			continue
+		}
 		rn.rmu.Unlock()
 		if doShrink && first && f.oracle != "hang" && f.oracle != "race-detector" && rn.hangs.Load() == 0 {
 			mb = rn.shrink(b, f.oracle, sched)
@@ -1329,6 +1348,39 @@ func dupNamesBatch() Batch {
 	b.Scripts = []Script{mk("foo#1", "foo#1", "c"), mk("foo", "foo", "a"), mk("foo#2", "foo", "b"), mk("bar", "bar", "d"), mk("bar#1", "bar", "e")}
 	b.Scripts[0].DelayMs, b.Scripts[2].DelayMs = 30, 60
 	return b
+}
+
+// namesBatch: one script file per element of fileBases, each in a directory of its own, in that order,
+// with the names RunT has to give them; every script has one archive file and writes one more, both
+// called after its position, and looks at its work directory before and after.
+func namesBatch(fileBases, exts []string) Batch {
+	b := Batch{Procs: 4, Par: 8, Canary: true}
+	names := uniqueNames(fileBases)
+	for i, base := range fileBases {
+		data := fmt.Sprintf("f%d", i)
+		b.Scripts = append(b.Scripts, Script{Name: names[i], Base: base, Ext: exts[i%len(exts)], Files: []File{{Path: "who-" + data + ".txt", Data: data}},
+			Body: []Action{{Op: "O"}, {Op: "W", Path: "mine-" + data, Data: data}, {Op: "O"}}})
+	}
+	return b
+}
+
+// genNameBases: 2-5 files of one base name mixed with 0-4 files whose base names already look like
+// disambiguated names of it (x#1, x#2, x#1#1, ...; repeated ones too) or are unrelated, shuffled.
+func genNameBases(r *common.RNG) []string {
+	x := common.Pick(r, []string{"a", "foo", "s1", "x9"})
+	var bs []string
+	for k := 2 + r.Intn(4); k > 0; k-- {
+		bs = append(bs, x)
+	}
+	pool := []string{x + "#1", x + "#2", x + "#1#1", x + "#3", x + "#1", x + "#2#1", x + "#1#2", "other", x + "1"}
+	for k := r.Intn(5); k > 0; k-- {
+		bs = append(bs, common.Pick(r, pool))
+	}
+	for i := len(bs) - 1; i > 0; i-- {
+		j := r.Intn(i + 1)
+		bs[i], bs[j] = bs[j], bs[i]
+	}
+	return bs
 }
 
 // linkPair: a makes links into b's work directory (to a read-only file, a read-only directory, the
@@ -1554,6 +1606,36 @@ func (rn *runner) mainC04() {
 	dn := dupNamesBatch()
 	dn.Retain = "testwork"
 	addB(dn, "hand")
+	// Params.Files with 2-5 files of one base name in different directories, mixed with base names that
+	// already carry counter-like suffixes (a#1.txt, a#2.txtar, a#1#1.txt), in several orders: every
+	// script must get a name, hence a work directory, of its own
+	{
+		rnm := common.NewRNG(f.Seed ^ 0x6e616d65)
+		lists := [][]string{{"foo", "foo", "foo"}, {"a", "a", "a#1", "a#1#1", "a", "a#2", "a"}}
+		nn := rn.size("TSBATCH_NAMES_QUICK", 3)
+		if f.Tier == "thorough" {
+			nn = rn.size("TSBATCH_NAMES_THOROUGH", 60)
+		}
+		for i := 0; i < nn; i++ {
+			lists = append(lists, genNameBases(rnm))
+		}
+		for i, bs := range lists {
+			exts := common.Pick(rnm, [][]string{{"txt", "txtar"}, {"txtar", "txt", "txt"}, {"txt"}, {"txtar"}})
+			nb := namesBatch(bs, exts)
+			nb.Retain = []string{"", "", "testwork", "workdirroot"}[i%4]
+			nb.NonRoot = rn.nonRoot && i%2 == 1
+			nb.SeqT = i%5 == 4
+			addB(nb, "names")
+			// the same files in the opposite order
+			var rv []string
+			for k := len(bs) - 1; k >= 0; k-- {
+				rv = append(rv, bs[k])
+			}
+			nr := namesBatch(rv, exts)
+			nr.Procs = 2
+			addB(nr, "names")
+		}
+	}
 	eb2 := escapeBatch()
 	eb2.Retain, eb2.NonRoot = "workdirroot", rn.nonRoot
 	addB(eb2, "hand")
@@ -1703,7 +1785,7 @@ func (rn *runner) mainC04() {
 	if n := skipped.Load(); n > 0 {
 		res.Notes = append(res.Notes, fmt.Sprintf("%d batches were not run: three children had already hung and had to be killed", n))
 	}
-	res.Rule = fmt.Sprintf("before and after every run a snapshot (names, types, sizes, modes, owners, times, content hashes) of sentinel trees outside the work directories (a host directory with files and directories of several modes, owned by the user the child runs as; the directory of the helper programs) is compared; scripts create symbolic links (to host sentinels, to siblings' files and directories, dangling, into their own tree), read-only files and directories, and use rm; clean-up jobs: trees of directories, files and links of every kind (absolute, relative, chained, looping) built by Setup, the script ending passed / failed / skipped / stopped, with and without `rm <sub>`, a parallel sibling recording its own directory after the clean-up, everything observed compared with remove_all_now of TsCleanup.v; a pair of scripts with links into each other's directory under schedules that put `rm` and the clean-up of one between two looks of the other; corpus batches; the execCache pair in both start orders and, with the harness holding the turn (a T whose Parallel parks the subtest and a gate command before every script line), under all %d interleavings of its lines; the pair whose archive names files outside the work directory; RunT without any script; a hand-written batch covering every exit path (pass, fail, skip, stop, setup failure, panicking custom command, panicking deferred function) with defers, background processes and read-only directories under each retention mode, with and without ContinueOnError; then %d generated batches of 2-8 scripts (with kill / kill+wait, ContinueOnError, $WORK-named and escaping archive entries), each run free under three settings of GOMAXPROCS / subtest parallelism / start delays / verbosity and gated under a random and a sequential schedule, the model being asked for the same schedule; Setup functions that drop, empty or filter Env.Vars (allow-lists that may keep nothing) with programs started before the first env line, in the foreground and in the background (by name and by absolute path): every started program must see no host variable and a PWD equal to the directory it runs in; deferred functions (of Setup and of the script) that panic, call FailNow / Fatal / Skip on the T or call ts.Fatalf, in runs left early by a failing line, by T.Skip / T.FailNow / T.Fatal from a custom command or by a panicking command while background commands (one of them slow to shut down) are running: every recorded pid is looked up in /proc (pid and start time) at the moment the subtest function returns; [exec:...] conditions naming programs with a separator; a script with a large work directory and quick scripts that are made to finish while its clean-up is under way (two more deferred functions of Setup order the ends), the last of them having to remove the shared root; every script is also run alone; children built with -race, unprivileged when possible; a batch is non-trivial when some script has defers, background processes, probes or does not pass; distinct = distinct (retention, verdicts, defer orders, probe counts)",
+	res.Rule = fmt.Sprintf("before and after every run a snapshot (names, types, sizes, modes, owners, times, content hashes) of sentinel trees outside the work directories (a host directory with files and directories of several modes, owned by the user the child runs as; the directory of the helper programs) is compared; scripts create symbolic links (to host sentinels, to siblings' files and directories, dangling, into their own tree), read-only files and directories, and use rm; clean-up jobs: trees of directories, files and links of every kind (absolute, relative, chained, looping) built by Setup, the script ending passed / failed / skipped / stopped, with and without `rm <sub>`, a parallel sibling recording its own directory after the clean-up, everything observed compared with remove_all_now of TsCleanup.v; a pair of scripts with links into each other's directory under schedules that put `rm` and the clean-up of one between two looks of the other; Params.Files with 2-5 script files of one base name in different directories mixed with base names that already carry counter-like suffixes (x#1.txt, x#2.txtar, x#1#1.txt, repeated ones), both extensions, each list in both orders: the names reported through T.Run and the work directories handed to Params.Setup must be pairwise distinct, every script must find its own files only and nothing may be left behind; corpus batches; the execCache pair in both start orders and, with the harness holding the turn (a T whose Parallel parks the subtest and a gate command before every script line), under all %d interleavings of its lines; the pair whose archive names files outside the work directory; RunT without any script; a hand-written batch covering every exit path (pass, fail, skip, stop, setup failure, panicking custom command, panicking deferred function) with defers, background processes and read-only directories under each retention mode, with and without ContinueOnError; then %d generated batches of 2-8 scripts (with kill / kill+wait, ContinueOnError, $WORK-named and escaping archive entries), each run free under three settings of GOMAXPROCS / subtest parallelism / start delays / verbosity and gated under a random and a sequential schedule, the model being asked for the same schedule; Setup functions that drop, empty or filter Env.Vars (allow-lists that may keep nothing) with programs started before the first env line, in the foreground and in the background (by name and by absolute path): every started program must see no host variable and a PWD equal to the directory it runs in; deferred functions (of Setup and of the script) that panic, call FailNow / Fatal / Skip on the T or call ts.Fatalf, in runs left early by a failing line, by T.Skip / T.FailNow / T.Fatal from a custom command or by a panicking command while background commands (one of them slow to shut down) are running: every recorded pid is looked up in /proc (pid and start time) at the moment the subtest function returns; [exec:...] conditions naming programs with a separator; a script with a large work directory and quick scripts that are made to finish while its clean-up is under way (two more deferred functions of Setup order the ends), the last of them having to remove the shared root; every script is also run alone; children built with -race, unprivileged when possible; a batch is non-trivial when some script has defers, background processes, probes or does not pass; distinct = distinct (retention, verdicts, defer orders, probe counts)",
 		len(interleavings([]int{turns(&gp.Scripts[0]), turns(&gp.Scripts[1])}, 64)), n)
 }
 
